@@ -1,0 +1,9 @@
+//go:build !verif
+
+package db
+
+// no-op stubs of the verification hooks (see verif_on.go, build tag verif)
+
+func verifDurableWrite(db *GoLevelDB, site string) {}
+
+func verifRegisterDB(db *GoLevelDB, name, dir string) {}
